@@ -402,9 +402,156 @@ func c15run(w *report.W) {
 			}
 		}
 	}
+	c15merges(w)
 	w.P.Bounds["key_subsets"] = 1024
 	w.P.Bounds["type_values"] = len(types)
 	w.P.Bounds["scalar_strings"] = len(sl)
+}
+
+// c15merges: the kind-determining keys and `type` reach the step through YAML merges. Three layers (step, mid, base), each
+// holding every subset of a small key alphabet and every `type` option, with its own keys written before or after its `<<`
+// line; two topologies: a chain (step <<: *mid, mid <<: *base) and a sequence (step <<: [*mid, *base]). The effective
+// mapping is computed here from the merge rule alone (own keys beat merged keys wherever the `<<` line stands; earlier
+// sources beat later ones), and the rule table is applied to it.
+func c15merges(w *report.W) {
+	keyAlpha := []string{"command", "trigger"}
+	typeAlpha := []string{"", "wait", "trigger", "mystery"}
+	if w.Thorough() {
+		keyAlpha = []string{"command", "block", "trigger"}
+		typeAlpha = []string{"", "wait", "trigger", "mystery", "command"}
+	}
+	type layer struct {
+		keys []string // own kind keys, in alphabet order
+		typ  string   // own type ("" = absent)
+	}
+	var layers []layer
+	for mask := 0; mask < 1<<len(keyAlpha); mask++ {
+		var ks []string
+		for i, k := range keyAlpha {
+			if mask&(1<<i) != 0 {
+				ks = append(ks, k)
+			}
+		}
+		for _, t := range typeAlpha {
+			layers = append(layers, layer{ks, t})
+		}
+	}
+	own := func(l layer, indent string) []string {
+		var out []string
+		for _, k := range l.keys {
+			out = append(out, fmt.Sprintf("%s%q: %s", indent, k, c15vals[k]))
+		}
+		if l.typ != "" {
+			out = append(out, fmt.Sprintf("%s\"type\": %q", indent, l.typ))
+		}
+		return out
+	}
+	// block rendering of one anchored top-level mapping
+	anchored := func(name string, l layer, merge string, mergeFirst bool) string {
+		lines := own(l, "  ")
+		if merge != "" {
+			if mergeFirst {
+				lines = append([]string{"  <<: " + merge}, lines...)
+			} else {
+				lines = append(lines, "  <<: "+merge)
+			}
+		}
+		if len(lines) == 0 {
+			return name + ": &" + name + " {}\n"
+		}
+		return name + ": &" + name + "\n" + strings.Join(lines, "\n") + "\n"
+	}
+	overlay := func(dst map[string]string, l layer) { // keys of l that dst lacks
+		for _, k := range l.keys {
+			if _, ok := dst[k]; !ok {
+				dst[k] = "x"
+			}
+		}
+		if l.typ != "" {
+			if _, ok := dst["type"]; !ok {
+				dst["type"] = l.typ
+			}
+		}
+	}
+	n := 0
+	for _, topo := range []string{"chain", "seq"} {
+		for _, st := range layers {
+			for _, mid := range layers {
+				for _, base := range layers {
+					// effective mapping: step's own, then mid's, then base's - the same for both topologies (chain: mid's
+					// effective mapping is mid over base; sequence: mid before base)
+					eff := map[string]string{}
+					overlay(eff, st)
+					overlay(eff, mid)
+					overlay(eff, base)
+					has := map[string]bool{}
+					for k := range eff {
+						has[k] = true
+					}
+					want := c15kindByKeys(has)
+					if t, ok := eff["type"]; ok {
+						want = c15kindByType(t)
+					}
+					for place := 0; place < 4; place++ {
+						stepFirst, midFirst := place&1 == 0, place&2 == 0
+						if topo == "seq" && !midFirst {
+							continue // mid has no merge line in the sequence topology
+						}
+						var doc strings.Builder
+						doc.WriteString(anchored("base", base, "", true))
+						if topo == "chain" {
+							doc.WriteString(anchored("mid", mid, "*base", midFirst))
+						} else {
+							doc.WriteString(anchored("mid", mid, "", true))
+						}
+						mergeLine := "<<: *mid"
+						if topo == "seq" {
+							mergeLine = "<<: [*mid, *base]"
+						}
+						sl := own(st, "")
+						if stepFirst {
+							sl = append([]string{mergeLine}, sl...)
+						} else {
+							sl = append(sl, mergeLine)
+						}
+						for _, inGrp := range []bool{false, true} {
+							ind := "  - "
+							cont := "    "
+							var d strings.Builder
+							d.WriteString(doc.String())
+							d.WriteString("steps:\n")
+							if inGrp {
+								d.WriteString("  - group: G\n    steps:\n")
+								ind, cont = "      - ", "        "
+							}
+							for i, l := range sl {
+								if i == 0 {
+									d.WriteString(ind + l + "\n")
+								} else {
+									d.WriteString(cont + l + "\n")
+								}
+							}
+							text := d.String()
+							if !w.Take(text) {
+								continue
+							}
+							w.P.Evaluations++
+							w.P.Nontrivial++
+							n++
+							p := c15payload{Doc: text, Want: want, InGrp: inGrp}
+							kind, detail := c15judge(p)
+							w.Obs(fmt.Sprintf("merge %s want=%s grp=%v result=%s", topo, want, inGrp, kind))
+							if kind != "" {
+								w.Violate(report.Violation{Kind: "merge-" + kind, Case: text, Detail: detail + " | want " + want + " (effective mapping after the merges: " + fmt.Sprint(eff) + ")", Size: len(st.keys) + len(mid.keys) + len(base.keys) + 3, Replay: p, GoTest: docGoTest(text, kind+": "+detail+" | want "+want)})
+							}
+						}
+					}
+				}
+			}
+		}
+	}
+	w.P.Bounds["merge_layer_contents"] = len(layers)
+	_ = n // per-worker count; the total is part of `evaluations`
 }
 
 func init() {
@@ -414,7 +561,7 @@ func init() {
 			"unknown, wrong case, near miss, the empty string} x 12 extra-key sets (a quoted `<<` key holding kind keys, unknown nested key, key+label, empty-string key, aliases+steps, look-alike keys, a 7x21 matrix with 13 adjustments, and three 'poisoned' sets whose values the decoder of some kind rejects - " +
 			"nested env mapping, list-valued key, unknown child step + mapping-valued label: there the step may also fall back to unknown with a warning, never to another known kind) x key orders " +
 			"(all permutations up to 3-4 keys, rotations of sorted and reversed beyond), each parsed as a top-level step and as the only child of a group; " +
-			"plus all scalar step strings built from <=2 pieces of a 19-piece alphabet, through Parse and through the exported NewScalarStep. Distinct = distinct document text; non-trivial = more than one key.",
+			"plus all scalar step strings built from <=2 pieces of a 19-piece alphabet, through Parse and through the exported NewScalarStep; plus YAML documents in which the kind keys and `type` arrive through merges: three layers (step, mid, base) x every subset of {command, trigger} (thorough: + block) x type in {absent, wait, trigger, mystery} (thorough: + command), own keys before/after the `<<` line, chain and [*mid, *base] sequence, top level and in a group. Distinct = distinct document text; non-trivial = more than one key.",
 		Assumptions: []string{
 			"a non-string `type` value is a hard error and outside the table (the statement is silent)",
 			"a group whose child is unknown may itself be downgraded to an unknown step (DESIGN §8); the warning must still identify the sentinel",
